@@ -412,6 +412,16 @@ def cmdOracle (args : List String) : String :=
         | some e => s!"ok seq={e.seq} ver={e.ver} vlan={e.vlan} cos={e.cos} en={e.en} t={e.t} session={e.sessionId} index={e.portIndex} inner={hexOrDash e.inner}"
         | none => "bad"
       | _ => "bad-request"
+  | ["decappos", kind, h] =>
+    -- outer datagram larger than 65535 bytes: positional decapsulation (Spec.decapPositional)
+    let k? : Option Spec.TunnelKind :=
+      if kind == "vxlan" then some .vxlan else if kind == "gre" then some .gre
+      else if kind == "erspan1" then some .erspan1 else if kind == "erspan2" then some .erspan2 else none
+    match ofHex h, k? with
+    | some b, some k => match Spec.decapPositional k b with
+      | some i => s!"ok inner={hexOrDash i}"
+      | none => "bad"
+    | _, _ => "bad-request"
   | ["net", raw, h] =>
     match ofHex h with
     | none => "bad-request"
